@@ -43,7 +43,8 @@ BUDGET = {"quick": {"points": 70, "nP0": 10, "integrated": 20, "cython": 1},
           "thorough": {"points": 1600, "nP0": 200, "integrated": 260, "cython": 6}}
 RULE = ("random autonomous model definitions (1-5 states, 1-5 parameters and parameter-free variants, every rate kind, "
         "derived parameters, explicit ODE terms) at a random rational state/parameter point with random rational "
-        "sensitivity values; both arrangements; a point case is non-trivial when jacobian and grad both have a non-zero "
+        "sensitivity values; both arrangements; every point is visited again after model.parameters was re-assigned and once more "
+        "after the first values were restored (history independence); a point case is non-trivial when jacobian and grad both have a non-zero "
         "entry and nS*nP >= 2 (nS >= 2 for parameter-free models); an integrated case when the integration succeeded and "
         "some sensitivity exceeds 1e-3")
 ASSUMPTIONS = ["PARTIAL: that the solution of the variational equations IS dx(t)/dtheta resp. dx(t)/dx0 (smooth dependence of ODE "
@@ -270,6 +271,88 @@ def run_point(case):
     check_jac("ode_and_sensitivityIV_jacobian(z,t)", lambda: model.ode_and_sensitivityIV_jacobian(ziv, t),
               lambda w: model.ode_and_sensitivityIV(w, t), ziv,
               [("as-coded", lambda: layout("odeAndSensitivityIVJacobian", z=fvec(zivq), **jcommon))], "aug-jacobian:IV")
+    # ---- revisit: the same point (z, t) after the parameters were re-assigned, then after they were restored.
+    # The augmented right-hand sides and their Jacobians are functions of (z, t) and the CURRENT parameter values
+    # only (in the Lean model they are pure functions); anything remembered from an earlier call at the same
+    # point (a memo keyed on state and time, a cached J, G or S) shows here and nowhere else.
+    if nP >= 1 and not viol:
+        first = {}
+        for bs in (False, True):
+            first[("rhs", bs)] = _call(lambda: model.ode_and_sensitivity(z, t, bs))[0]
+            first[("jac", bs)] = _call(lambda: model.ode_and_sensitivity_jacobian(z, t, bs))[0]
+        first[("rhsIV",)] = _call(lambda: model.ode_and_sensitivityIV(ziv, t))[0]
+        first[("jacIV",)] = _call(lambda: model.ode_and_sensitivityIV_jacobian(ziv, t))[0]
+        env2 = dict(env)
+        for k, pn in enumerate(params):
+            env2[pn] = env[pn] * Fraction(3 + (k % 3), 2) + Fraction(1, 7 + k)
+        try:
+            fq2 = [ev_frac(e, env2) for e in lr["ode"]]
+            Jq2 = [[ev_frac(e, env2) for e in row] for row in lr["jac"]]
+            Gq2 = [[ev_frac(e, env2) for e in row] for row in lr["grad"]]
+            DJq2 = [[ev_frac(e, env2) for e in row] for row in lr["djac"]]
+            GJq2 = [[ev_frac(e, env2) for e in row] for row in lr["gjac"]]
+        except (E.Undefined, ZeroDivisionError):
+            fq2 = None
+            tags.append("revisit:undefined_point")
+        if fq2 is not None:
+            tags.append("revisit")
+            model.parameters = [float(env2[pn]) for pn in params]
+            J2, _e1 = _call(lambda: model.jacobian(x, t)); G2, _e2 = _call(lambda: model.grad(x, t)); f2, _e3 = _call(lambda: model.ode(x, t))
+            if not (_e1 or _e2 or _e3):
+                J2 = J2.reshape(nS, nS); G2 = G2.reshape(nS, nP); f2 = f2.ravel()
+                scale2 = 1.0 + max([abs(float(v)) for row in Jq2 for v in row] + [abs(float(v)) for row in Gq2 for v in row] + [abs(float(v)) for v in fq2])
+                atol2 = 1e-9 * scale2 * zscale
+                common2 = {"nS": nS, "nP": nP, "f": fvec(fq2), "J": fmat(Jq2), "G": fmat(Gq2)}
+                jcommon2 = {"nS": nS, "nP": nP, "J": fmat(Jq2), "GJ": fmat(GJq2), "DJ": fmat(DJq2)}
+
+                def again(name, real_fn, lean_thunks, expect, sig):
+                    got, err = _call(real_fn)
+                    if err:
+                        viol.append({"what": "%s raised %s after the parameters were re-assigned" % (name, err),
+                                     "signature": _sig(sig + ":revisit:raises", nS, nP), "detail": json.dumps(case["point"])})
+                        return
+                    if not any(close_arr(got.ravel(), to_float(th_()).ravel(), rtol, atol2) for th_ in lean_thunks):
+                        mism.append({"what": name + " vs Lean layout, same point after a parameter re-assignment",
+                                     "detail": worst(got.ravel(), to_float(lean_thunks[0]()).ravel())})
+                    if expect is not None and not close_arr(got.ravel(), expect, 1e-8, 1e-8 * scale2 * zscale):
+                        viol.append({"what": "%s evaluated again at the same (z,t) after model.parameters was re-assigned is not "
+                                             "(f, J.S+G) for the new parameter values" % name,
+                                     "signature": _sig(sig + ":revisit", nS, nP), "detail": worst(got.ravel(), expect) + " nS=%d nP=%d" % (nS, nP)})
+
+                for bs in (False, True):
+                    arr = "by_state" if bs else "by_parameter"
+                    again("ode_and_sensitivity(z,t,by_state=%s)" % bs, lambda: model.ode_and_sensitivity(z, t, bs),
+                          [lambda bs=bs: layout("odeAndSensitivity", z=fvec(zq), byState=bs, **common2)],
+                          expected_rhs(nS, nP, f2, J2, G2, z, bs), "sens-rhs:" + arr)
+                    jv = [lambda bs=bs: layout("odeAndSensitivityJacobian", z=fvec(zq), byState=bs, **jcommon2)]
+                    if bs:
+                        jv.append(lambda: layout("odeAndSensitivityJacobianByStateRepaired", z=fvec(zq), **jcommon2))
+                    fd, f0 = richardson_jac(lambda w, bs=bs: np.asarray(model.ode_and_sensitivity(w, t, bs), float).ravel(), z)
+                    gotj, errj = _call(lambda: model.ode_and_sensitivity_jacobian(z, t, bs))
+                    again("ode_and_sensitivity_jacobian(z,t,by_state=%s)" % bs, lambda: model.ode_and_sensitivity_jacobian(z, t, bs), jv, None,
+                          "aug-jacobian:" + arr)
+                    if errj is None and not close_arr(gotj.reshape(fd.shape), fd, 1e-6, 1e-6 * (1.0 + float(np.max(np.abs(f0))) + float(np.max(np.abs(fd))))):
+                        viol.append({"what": "ode_and_sensitivity_jacobian(z,t,by_state=%s) evaluated again at the same (z,t) after model.parameters "
+                                             "was re-assigned is not the derivative of its right-hand side" % bs,
+                                     "signature": _sig("aug-jacobian:%s:revisit" % arr, nS, nP), "detail": worst(gotj.reshape(fd.shape), fd)})
+                again("ode_and_sensitivityIV(z,t)", lambda: model.ode_and_sensitivityIV(ziv, t),
+                      [lambda: layout("odeAndSensitivityIV", z=fvec(zivq), **common2)], expected_rhs_iv(nS, nP, f2, J2, G2, ziv), "IV-rhs")
+                again("ode_and_sensitivityIV_jacobian(z,t)", lambda: model.ode_and_sensitivityIV_jacobian(ziv, t),
+                      [lambda: layout("odeAndSensitivityIVJacobian", z=fvec(zivq), **jcommon2)], None, "aug-jacobian:IV")
+                # back to the first parameter values: bit-for-bit what the first visit returned
+                model.parameters = th
+                back = {}
+                for bs in (False, True):
+                    back[("rhs", bs)] = _call(lambda: model.ode_and_sensitivity(z, t, bs))[0]
+                    back[("jac", bs)] = _call(lambda: model.ode_and_sensitivity_jacobian(z, t, bs))[0]
+                back[("rhsIV",)] = _call(lambda: model.ode_and_sensitivityIV(ziv, t))[0]
+                back[("jacIV",)] = _call(lambda: model.ode_and_sensitivityIV_jacobian(ziv, t))[0]
+                for key in first:
+                    a, b = first[key], back[key]
+                    if a is not None and b is not None and not np.array_equal(np.asarray(a), np.asarray(b)):
+                        viol.append({"what": "%s at the same (z,t) with the same parameter values returns something else after an intermediate "
+                                             "parameter re-assignment" % "/".join(str(k_) for k_ in key),
+                                     "signature": _sig("history-dependent:" + str(key[0]), nS, nP), "detail": worst(np.asarray(a, float).ravel(), np.asarray(b, float).ravel())})
     # vec <-> mat helpers exactly
     if nP >= 1:
         from pygom.model import ode_utils
